@@ -16,6 +16,8 @@ ASSUME = [
     "objects passed to write() are instances of a counting subclass of ObjectHeader that encodes like a CAN message (the concrete classes are final)",
     "leaks are measured as the live-allocation count of the replaced operator new/delete before the history vs after the File is gone",
     "write-mode good()/eof() are not documented and are not compared; read() after close() may return objects that were already queued or null",
+    "write(nullptr) (outside the property's alphabet) is issued in a few write histories; it may be ignored or throw, only the "
+    "guarantees for the real objects are checked afterwards",
     "histories that would block by design are not issued: read before a successful open, write outside an open write session",
 ]
 
@@ -65,6 +67,11 @@ def write_histories():
             for a in range(0, 7):
                 for b in range(0, 4):
                     out.append((hist(fp, "O", oa, ".".join("W" * a), ".".join("C" * b), "D"), 0, b == 0 and a > 0))
+    # a null pointer passed to write() between real objects (not an object: it may be ignored or rejected, the session's
+    # guarantees for the real objects must survive it); 12 objects behind it exceed the queue capacity
+    for body in ("N", "W.N", "N.W", "W.N.W", "W.N.W.W", "W.W.N.W.N.W", "W.N." + ".".join("W" * 12)):
+        for b in range(0, 3):
+            out.append((hist("O", body, ".".join("C" * b), "D"), 0, b == 0))
     # no successful open at all
     for fp in FAILED:
         for b in range(0, 3):
